@@ -38,7 +38,15 @@ type c16Case struct {
 	// DocElsewhere: the document was built while the other endpoint was configured (another
 	// instance, or before a metadata refresh); the page is rendered with this case's endpoint
 	DocElsewhere bool `json:"document_built_under_other_endpoint,omitempty"`
+	// Pad, when non-zero, adds an Extensions-like element with that many bytes of text to the
+	// document before the page is built (documents of a few hundred bytes up to 200 kB: large
+	// certificate chains, caller extensions)
+	Pad int `json:"document_padding_bytes,omitempty"`
 }
+
+// c16Pads puts the serialised document on both sides of every power of two from 1 KiB to
+// 128 KiB, with lengths in all three residues mod 3 (base64 padding).
+var c16Pads = []int{700, 701, 702, 1500, 3500, 3501, 7000, 7600, 7601, 7602, 8200, 15000, 16001, 31000, 33002, 64000, 66001, 130000, 132002, 200000}
 
 // c16Fragments are the pieces an injection is assembled from; the thorough tier tries every
 // sequence of up to three of them.
@@ -144,6 +152,9 @@ func c16Build(sp *saml2.SAMLServiceProvider, c c16Case) (out []byte, docBytes []
 		if c16Docs[c.Doc] == "non-ascii" {
 			doc.Root().CreateElement("note").SetText("ünïcödé & <markup> \"q\" + " + strings.Repeat("日本語😀", 20))
 		}
+		if c.Pad > 0 {
+			doc.Root().CreateElement("pad").SetText(strings.Repeat("0123456789abcdef", c.Pad/16+1)[:c.Pad])
+		}
 		if c16Docs[c.Doc] == "caller-assembled" {
 			// a document the caller put together itself (default write settings) around a copy of
 			// the element
@@ -178,7 +189,7 @@ func c16Build(sp *saml2.SAMLServiceProvider, c c16Case) (out []byte, docBytes []
 func c16JudgePage(sp *saml2.SAMLServiceProvider, c c16Case, out, docBytes []byte, err error, p string) (keys []string, detail, class string) {
 	relay := c.relay()
 	b := c16Builders[c.Builder]
-	detail = fmt.Sprintf("builder=%s relay=%q doc=%s endpoint=%s sign=%v | err=%v panic=%q", b, relay, c16Docs[c.Doc], c16Endpoints[c.Endpoint], c.Sign, err, p)
+	detail = fmt.Sprintf("builder=%s relay=%q doc=%s(%d bytes) endpoint=%s sign=%v | err=%v panic=%q", b, relay, c16Docs[c.Doc], len(docBytes), c16Endpoints[c.Endpoint], c.Sign, err, p)
 	kp := "C16/" + b + "/"
 	if p != "" {
 		return []string{kp + "panic"}, detail, "panic"
@@ -385,6 +396,7 @@ var c16Baselines sync.Map
 
 func c16BaselineSkeleton(c c16Case) (string, error) {
 	bc := c
+	bc.Pad = 0
 	if c.relay() != "" {
 		bc.Relay, bc.Frags = 1, nil // "plain"
 	}
@@ -419,7 +431,7 @@ func c16Replay(raw json.RawMessage) ([]string, string) {
 }
 
 func c16Run(r *mc.Run) {
-	r.Rule = "full product relay state(33: quotes, angle brackets, script and attribute-injection payloads, ampersands, character references, newline, U+2028, backtick, backslash, template syntax, plus, comment opener, NUL, lengths 80/81/82+/2090/4800 bytes with multi-byte characters across byte 80) x builder(4) x document(4: signed, unsigned, non-ASCII, assembled by the caller with default write settings; the document must be unchanged afterwards) x endpoint(2: plain, with & query) x document built under this or under the other endpoint x SignAuthnRequests(2, BuildAuthBodyPost), plus relay states assembled from every sequence of 2 (quick) / 2-3 (thorough) of 28 injection fragments x builder(4); oracle = a strict HTML tokenizer (anything needing browser error recovery is rejected) and a reading of the page as a browser would: exactly one form, action = the endpoint, method POST, exactly one message field inside it = base64 of exactly the document, a RelayState field iff non-empty decoding to exactly the value, no binding field anywhere else, a script that submits; and the token skeleton (every tag, attribute, attribute value, text and script except those three values) equal to the skeleton of the page the same builder makes for a plain relay state, so that nothing else can depend on the relay state or the document. non-trivial = a page was produced and tokenized; distinct = distinct case"
+	r.Rule = "full product relay state(33: quotes, angle brackets, script and attribute-injection payloads, ampersands, character references, newline, U+2028, backtick, backslash, template syntax, plus, comment opener, NUL, lengths 80/81/82+/2090/4800 bytes with multi-byte characters across byte 80) x builder(4) x document(4: signed, unsigned, non-ASCII, assembled by the caller with default write settings; the document must be unchanged afterwards) x endpoint(2: plain, with & query) x document built under this or under the other endpoint x SignAuthnRequests(2, BuildAuthBodyPost), plus documents padded to 20 sizes from 1 kB to 200 kB (both sides of every power of two up to 128 KiB, all residues mod 3) x builder(3) x document(4), plus relay states assembled from every sequence of 2 (quick) / 2-3 (thorough) of 28 injection fragments x builder(4); oracle = a strict HTML tokenizer (anything needing browser error recovery is rejected) and a reading of the page as a browser would: exactly one form, action = the endpoint, method POST, exactly one message field inside it = base64 of exactly the document, a RelayState field iff non-empty decoding to exactly the value, no binding field anywhere else, a script that submits; and the token skeleton (every tag, attribute, attribute value, text and script except those three values) equal to the skeleton of the page the same builder makes for a plain relay state, so that nothing else can depend on the relay state or the document. non-trivial = a page was produced and tokenized; distinct = distinct case"
 	var cases []c16Case
 	mc.Enumerate(-1, r.Expired, func(ch *mc.Chooser) {
 		c := c16Case{}
@@ -434,6 +446,17 @@ func c16Run(r *mc.Run) {
 		}
 		cases = append(cases, c)
 	})
+	// large documents
+	nPad := 0
+	for b := 1; b < len(c16Builders); b++ {
+		for _, pad := range c16Pads {
+			for d := range c16Docs {
+				cases = append(cases, c16Case{Builder: b, Relay: 1 + (pad+d)%3, Doc: d, Endpoint: (pad + b) % 2, Pad: pad})
+				nPad++
+			}
+		}
+	}
+	r.Set("large_document_cases", nPad)
 	// relay states assembled from fragments: every sequence of <= 2 (quick) / <= 3 (thorough)
 	maxF := 2
 	if r.Thorough() {
